@@ -12,11 +12,8 @@ Instantiations (tools/instantiate.py):
 
 Conventions.  An `Epoch` enters as its JDE (a number).  An `Angle` is its `_deg` field (a number);
 the few Angle methods used by Moon.py are mirrored at the top (names local to `MoonM`).
-The finders compute `year = y + doy / num_days_year` from `epoch.get_date()`, `Epoch.is_leap`,
-`Epoch.get_doy`: that is `finder_year` of templates/MoonYear.lean (built on the calendar models of
-EpochCore / EpochCal).  `moon_phase year target` etc. take the fractional year; the functions
-`*_jde` at the end compose them with `finder_year`, so the whole chain starts from the query JDE
-(a `Float` in the F model, a rational in the R model: every binary64 epoch is a rational).
+The finders take the count from the query itself, `k = round((epoch.jde() - J0) / P, 0)` with their
+own `J0`, `P` (plus the quarter / half offsets): they are functions of the query JDE.
 `nutation_longitude` / `true_obliquity` / the coarse Sun are the models of templates/Vsop.lean and
 SunEarth.lean (namespace `Helio`): `apparent_*_jde`, `position_bright_limb_jde`.
 `Epoch(jde)` (the constructor the finders end with) re-derives the JDE through
@@ -28,10 +25,6 @@ import Pymeeus.Pre@K@
 import Pymeeus.Gen.MoonData
 --@only F
 import Pymeeus.Gen.F.EpochCore
-import Pymeeus.Gen.F.MoonYear
---@end
---@only R
-import Pymeeus.Gen.Q.MoonYear
 --@end
 import Pymeeus.Gen.@K@.SunEarth
 namespace Pymeeus.Gen@K@
@@ -378,9 +371,9 @@ def phase_target_ok (target : String) : Bool :=
   -- if (target != "new") and (target != "first") and (target != "full") and (target != "last"): raise
   !(target ≠ "new" && target ≠ "first" && target ≠ "full" && target ≠ "last")
 
-/-- `k = round((year - 2000.0) * 12.3685, 0)`, then `+= 0.25 / 0.5 / 0.75` -/
-def phase_k (year : Num) (target : String) : Num :=
-  let k := kround ((year - 2000.0) * 12.3685)
+/-- `k = round((epoch.jde() - 2451550.09766) / 29.530588861, 0)`, then `+= 0.25 / 0.5 / 0.75` -/
+def phase_k (jde : Num) (target : String) : Num :=
+  let k := kround ((jde - 2451550.09766) / 29.530588861)
   if target = "first" then k + 0.25 else if target = "full" then k + 0.5
   else if target = "last" then k + 0.75 else k
 
@@ -440,16 +433,15 @@ def phase_corr (k : Num) (target : String) : Num :=
   -- jde += corr + corr2 + w
   corr + corr2 + w
 
-/-- `Moon.moon_phase(epoch, target)` before the final `Epoch(jde)`; `year` is the fractional year
-    the function derives from the epoch. -/
-def moon_phase_raw (year : Num) (target : String) : PyRes Num :=
+/-- `Moon.moon_phase(epoch, target)` before the final `Epoch(jde)`; `jde` is the query `epoch.jde()`. -/
+def moon_phase_raw (jde : Num) (target : String) : PyRes Num :=
   if !phase_target_ok target then .error .valueError else
-  let k := phase_k year target
+  let k := phase_k jde target
   .ok (phase_mean k + phase_corr k target)
 
 /-- `Moon.moon_phase(epoch, target).jde()` -/
-def moon_phase (year : Num) (target : String) : PyRes Num :=
-  match moon_phase_raw year target with
+def moon_phase (jde : Num) (target : String) : PyRes Num :=
+  match moon_phase_raw jde target with
   | .error e => .error e
   | .ok j => epoch_of_jde j
 
@@ -459,9 +451,9 @@ def apsis_target_ok (target : String) : Bool :=
   -- if (target != "perigee") and (target != "apogee"): raise ValueError
   !(target ≠ "perigee" && target ≠ "apogee")
 
-/-- `k = round((year - 1999.97) * 13.2555, 0)`; `if target == "apogee": k += 0.5` -/
-def apsis_k (year : Num) (target : String) : Num :=
-  let k := kround ((year - 1999.97) * 13.2555)
+/-- `k = round((epoch.jde() - 2451534.6698) / 27.55454989, 0)`; `if target == "apogee": k += 0.5` -/
+def apsis_k (jde : Num) (target : String) : Num :=
+  let k := kround ((jde - 2451534.6698) / 27.55454989)
   if target = "apogee" then k + 0.5 else k
 
 def apsis_mean (k : Num) : Num :=
@@ -492,14 +484,14 @@ def apsis_parallax (k : Num) (target : String) : Num :=
   if target = "perigee" then evalTerms 1.0 t (apsis_env k) perigee_parallax
   else evalTerms 1.0 t (apsis_env k) apogee_parallax
 
-def moon_perigee_apogee_raw (year : Num) (target : String) : PyRes (Num × Num) :=
+def moon_perigee_apogee_raw (jde : Num) (target : String) : PyRes (Num × Num) :=
   if !apsis_target_ok target then .error .valueError else
-  let k := apsis_k year target
+  let k := apsis_k jde target
   -- jde += corr;  parallax = Angle(0, 0, parallax)
   .ok (apsis_mean k + apsis_corr k target, angle_dms00 (apsis_parallax k target))
 
-def moon_perigee_apogee (year : Num) (target : String) : PyRes (Num × Num) :=
-  match moon_perigee_apogee_raw year target with
+def moon_perigee_apogee (jde : Num) (target : String) : PyRes (Num × Num) :=
+  match moon_perigee_apogee_raw jde target with
   | .error e => .error e
   | .ok (j, p) => match epoch_of_jde j with
     | .error e => .error e
@@ -511,9 +503,9 @@ def nodes_target_ok (target : String) : Bool :=
   -- if (target != "ascending") and (target != "descending"): raise ValueError
   !(target ≠ "ascending" && target ≠ "descending")
 
-/-- `k = round((year - 2000.05) * 13.4223, 0)`; `if target == "descending": k += 0.5` -/
-def nodes_k (year : Num) (target : String) : Num :=
-  let k := kround ((year - 2000.05) * 13.4223)
+/-- `k = round((epoch.jde() - 2451565.1619) / 27.212220817, 0)`; `if target == "descending": k += 0.5` -/
+def nodes_k (jde : Num) (target : String) : Num :=
+  let k := kround ((jde - 2451565.1619) / 27.212220817)
   if target = "descending" then k + 0.5 else k
 
 def nodes_mean (k : Num) : Num :=
@@ -544,13 +536,13 @@ def nodes_corr (k : Num) : Num :=
   let E := ecc t
   evalTerms E t [Dr, Mr, Mprimer, Omegar, Vr, Pr] MoonData.nodes_corr
 
-def moon_passage_nodes_raw (year : Num) (target : String) : PyRes Num :=
+def moon_passage_nodes_raw (jde : Num) (target : String) : PyRes Num :=
   if !nodes_target_ok target then .error .valueError else
-  let k := nodes_k year target
+  let k := nodes_k jde target
   .ok (nodes_mean k + nodes_corr k)
 
-def moon_passage_nodes (year : Num) (target : String) : PyRes Num :=
-  match moon_passage_nodes_raw year target with
+def moon_passage_nodes (jde : Num) (target : String) : PyRes Num :=
+  match moon_passage_nodes_raw jde target with
   | .error e => .error e
   | .ok j => epoch_of_jde j
 
@@ -560,8 +552,11 @@ def decl_target_ok (target : String) : Bool :=
   -- if (target != "northern") and (target != "southern"): raise ValueError
   !(target ≠ "northern" && target ≠ "southern")
 
-/-- `k = round((year - 2000.03) * 13.3686, 0)` (no offset for the southern extreme) -/
-def decl_k (year : Num) : Num := kround ((year - 2000.03) * 13.3686)
+/-- `if target == 'northern': k = round((epoch.jde() - 2451562.5897) / 27.321582247, 0)`
+    `else: k = round((epoch.jde() - 2451548.9289) / 27.321582247, 0)` -/
+def decl_k (jde : Num) (target : String) : Num :=
+  if target = "northern" then kround ((jde - 2451562.5897) / 27.321582247)
+  else kround ((jde - 2451548.9289) / 27.321582247)
 
 def decl_mean (k : Num) (target : String) : Num :=
   let t := k / 1336.86
@@ -607,63 +602,19 @@ def decl_value (k : Num) (target : String) : Num :=
   -- declination = Angle(Angle.reduce_deg(declination))
   reduce_deg (reduce_deg declination)
 
-def moon_maximum_declination_raw (year : Num) (target : String) : PyRes (Num × Num) :=
+def moon_maximum_declination_raw (jde : Num) (target : String) : PyRes (Num × Num) :=
   if !decl_target_ok target then .error .valueError else
-  let k := decl_k year
+  let k := decl_k jde target
   .ok (decl_mean k target + decl_corr k target, decl_value k target)
 
-def moon_maximum_declination (year : Num) (target : String) : PyRes (Num × Num) :=
-  match moon_maximum_declination_raw year target with
+def moon_maximum_declination (jde : Num) (target : String) : PyRes (Num × Num) :=
+  match moon_maximum_declination_raw jde target with
   | .error e => .error e
   | .ok (j, d) => match epoch_of_jde j with
     | .error e => .error e
     | .ok j' => .ok (j', d)
 
-/-! ### the whole chain from the query JDE -/
---@only F
-/-- type of a query JDE -/
-abbrev QNum := Float
-/-- the finders' fractional year (templates/MoonYear.lean) -/
-def fyear (jde : QNum) : PyRes Float := finder_year jde
---@end
---@only R
-/-- type of a query JDE: a rational (every binary64 epoch is one) -/
-abbrev QNum := ℚ
-/-- the finders' fractional year: the exact (Rat) model of templates/MoonYear.lean, cast to ℝ -/
-def fyear (jde : QNum) : PyRes ℝ :=
-  match Pymeeus.GenQ.MoonM.finder_year jde with
-  | .error e => .error e
-  | .ok y => .ok ((y : ℚ) : ℝ)
---@end
-
-/-- `Moon.moon_phase(epoch, target).jde()` from the query JDE: target test, then the date
-    computations (which can raise), then the series. -/
-def moon_phase_jde (jde : QNum) (target : String) : PyRes Num :=
-  if !phase_target_ok target then .error .valueError else
-  match fyear jde with
-  | .error e => .error e
-  | .ok year => moon_phase year target
-
-/-- `Moon.moon_perigee_apogee(epoch, target)` from the query JDE -/
-def moon_perigee_apogee_jde (jde : QNum) (target : String) : PyRes (Num × Num) :=
-  if !apsis_target_ok target then .error .valueError else
-  match fyear jde with
-  | .error e => .error e
-  | .ok year => moon_perigee_apogee year target
-
-/-- `Moon.moon_passage_nodes(epoch, target)` from the query JDE -/
-def moon_passage_nodes_jde (jde : QNum) (target : String) : PyRes Num :=
-  if !nodes_target_ok target then .error .valueError else
-  match fyear jde with
-  | .error e => .error e
-  | .ok year => moon_passage_nodes year target
-
-/-- `Moon.moon_maximum_declination(epoch, target)` from the query JDE -/
-def moon_maximum_declination_jde (jde : QNum) (target : String) : PyRes (Num × Num) :=
-  if !decl_target_ok target then .error .valueError else
-  match fyear jde with
-  | .error e => .error e
-  | .ok year => moon_maximum_declination year target
+/-! ### apparent positions and bright limb from the JDE alone -/
 
 /-- `Moon.apparent_ecliptical_pos(epoch)`: `deltaPsi = nutation_longitude(epoch)` -/
 def apparent_ecliptical_pos_jde (jde : Num) : PyRes (Num × Num × Num × Num) :=
